@@ -176,28 +176,26 @@ func (s *Set) Complement(endSymbol rune) *Set {
 		return set
 	}
 	a, b := &s.Head, &set.Head
-	pre := rune(0)
-	if pre == a.Forward.Begin {
-		a = a.Forward
-		pre = a.End + 1
-	}
+	pre, covered := rune(0), false
 	a = a.Forward
 	for a.Forward != nil {
-		node := Node{
-			Backward: b,
-			Begin:    pre,
-			End:      a.Begin - 1,
+		if pre < a.Begin {
+			node := Node{
+				Backward: b,
+				Begin:    pre,
+				End:      a.Begin - 1,
+			}
+			b.Forward = &node
+			b = b.Forward
 		}
-		if a.End == endSymbol {
-			pre = endSymbol
+		if a.End >= endSymbol {
+			covered = true
 		} else {
 			pre = a.End + 1
 		}
-		b.Forward = &node
 		a = a.Forward
-		b = b.Forward
 	}
-	if pre < endSymbol {
+	if !covered {
 		node := Node{
 			Backward: b,
 			Begin:    pre,
@@ -205,6 +203,9 @@ func (s *Set) Complement(endSymbol rune) *Set {
 		}
 		b.Forward = &node
 		b = b.Forward
+	}
+	if b == &set.Head {
+		return set
 	}
 	b.Forward = &set.Tail
 	set.Tail.Backward = b
